@@ -93,6 +93,18 @@ def expressible(fmt, cls, kinds):
     return True
 
 
+# Tetrad text grammar demanded of labels: non-empty, no whitespace, no ';' (the separator of the node line).  Everything else
+# must round-trip exactly.  pre_build compares this set with the one the translated parser of the repo under test reserves.
+TETRAD_RESERVED = [";"]
+TETRAD_SPECIALS = ["007", "42", "-->", "<--", "o-o", "<->", "---", "o->", "1.", "2.", "Nodes:", "Edges:", "Graph", "Graph_Nodes:",
+                   ".", ":", "-", ">", "<", "o", "a,b", ",", "x|y", "1.5", "-1"]
+TETRAD_INEXPRESSIBLE = ["Graph Nodes:", "Graph Edges:", "a b", "x Nodes:", " lead", "trail ", "a\tb", "x;y", ";", "", " ", "a\nb"]
+
+
+def tetrad_expressible(label):
+    return label != "" and label.split() == [label] and not any(c in label for c in TETRAD_RESERVED)
+
+
 WEIGHTS = [0, -1, -2.5, 0.5, 3]
 DTYPES = ["bool", "int8", "uint8", "float64", "object"]     # besides the default int64
 
@@ -120,6 +132,12 @@ RULE = ("rt: for ADMG, CPDAG, PAG every acyclic graph on 2 and 3 nodes over all 
         "alphabet (numpy 0..33, causal-learn -1..6, pcalg 0..3) in 2 orders and every well-formed 3x3 matrix, import then "
         "export, the well-formed ones additionally as bool / int8 / uint8 / float64 / object arrays where the values fit (all "
         "fitting dtypes for 2x2, one random dtype per 3x3); tet: Tetrad token lists for all such graphs through a scratch file (string labels, random line orientation); "
+        "tetlab: Tetrad round trip of 3-node graphs whose str labels contain each printable ASCII punctuation character "
+        "except the reserved ';' (alone, leading, trailing, inner, doubled), digits-only labels, look-alikes of edge strings / line "
+        "numbers / header words ('-->', 'o-o', '1.', 'Nodes:'), random labels of length 1-6 over punctuation+alphanumerics: exact "
+        "round trip demanded; labels the grammar cannot express (whitespace, ';', empty, 'Graph Nodes:') must either survive or be "
+        "refused by the exporter with ValueError, never be damaged silently; the reserved set is cross-checked against the "
+        "translated parser (tie T). The matrix formats carry labels in arr_idx lists, not in text. "
         "ts/tsarr: stationary directed and undirected ts graphs / lag arrays with 2 variables, max_lag<=2 exhaustive, 3 sampled. "
         "distinct by (kind, class, format, canonical graph or matrix); non-trivial = at least one edge / non-zero entry and "
         "the model defines an expected answer (the format can express the input / the matrix is well formed)")
@@ -241,6 +259,37 @@ def gen_cases(tier, rng):
             for c3 in ">-o":
                 for a, b in ((0, 1), (1, 0)):
                     yield {"kind": "tet", "cls": cls, "order": [0, 1], "toks": [[a, b, c1 + "-" + c3]]}
+    # --- Tetrad label content (the only text format): str labels over every printable punctuation character the
+    # format does not reserve, look-alikes of the file's own tokens, and labels the grammar cannot express
+    import string
+    small = {"ADMG": [gr.G([0, 1, 2], D=[(0, 1)], B=[(1, 2)]), gr.G([0, 1, 2], D=[(2, 0)], U=[(0, 1)])],
+             "CPDAG": [gr.G([0, 1, 2], D=[(0, 1)], U=[(1, 2)]), gr.G([0, 1, 2], D=[(2, 1)])],
+             "PAG": [gr.G([0, 1, 2], D=[(0, 1)], C=[(1, 0), (1, 2), (2, 1)]), gr.G([0, 1, 2], B=[(0, 2)], C=[(1, 0)]),
+                     gr.G([0, 1, 2], D=[(2, 0)], U=[(1, 2)])]}
+    free = [c for c in string.punctuation if c not in TETRAD_RESERVED]
+    alnum = string.ascii_letters + string.digits
+    for cls in CLS:
+        for c in free:
+            for i, g in enumerate(small[cls]):
+                labs = [[c, "a" + c, c + "b"], ["a" + c + "b", c + c, "z"], ["q", c + "1", "2" + c]][i % 3]
+                yield {"kind": "tetlab", "cls": cls, "g": dict(g, V=rng.choice(_orders(3, rng))), "labels": labs}
+        for special in TETRAD_SPECIALS + TETRAD_INEXPRESSIBLE:
+            for pos in range(3):
+                g = rng.choice(small[cls])
+                labs = ["n0", "n1", "n2"]
+                labs[pos] = special
+                yield {"kind": "tetlab", "cls": cls, "g": dict(g, V=rng.choice(_orders(3, rng))), "labels": labs}
+            # as an edgeless node
+            yield {"kind": "tetlab", "cls": cls, "g": gr.G([0, 1, 2], D=[(0, 1)]), "labels": ["n0", "n1", special]}
+            yield {"kind": "tetlab", "cls": cls, "g": gr.G([2, 0, 1], D=[(0, 1)]), "labels": ["n0", "n1", special]}
+        for i in range(150 if not thorough else 1500):
+            labs = set()
+            while len(labs) < 3:
+                labs.add("".join(rng.choice(free + list(alnum) if rng.random() < 0.7 else free) for _ in range(rng.randint(1, 6))))
+            ks = [rng.choice([k for k in KINDS[cls] if "&" not in k]) for _ in gr.pairs(3)]
+            g = from_kinds(3, ks)
+            if gr.is_acyclic(3, g["D"]):
+                yield {"kind": "tetlab", "cls": cls, "g": dict(g, V=rng.choice(_orders(3, rng))), "labels": sorted(labs)}
     # --- time series
     for directed in (True, False):
         for ml in (1, 2, 3):
@@ -286,7 +335,7 @@ def _tok_sx(t):
 
 def encode(case):
     k = case["kind"]
-    if k == "rt":
+    if k in ("rt", "tetlab"):
         return [0, CLS.index(case["cls"]), gr.enc(case["g"]), _order(case)]
     if k == "mat":
         return [1, FMT.index(case["fmt"]), CLS.index(case["cls"]), case["order"], [[v + 1 for v in r] for r in case["m"]]]
@@ -329,6 +378,11 @@ def _ts_edges_obs(es, directed):
 
 def decode(case, v):
     k = case["kind"]
+    if k == "tetlab":
+        r = v[3]
+        if r[0] == 0 or not r[2]:
+            return None
+        return {"g": _graph_obs(case["cls"], r[2][0]), "expressible": all(tetrad_expressible(l) for l in case["labels"])}
     if k == "rt":
         order = _order(case)
         out = {}
@@ -488,8 +542,43 @@ def _tetrad_rt(cls, G, inv, text_nodes):
     return out
 
 
+def _run_tetlab(case):
+    import pywhy_graphs
+    from pywhy_graphs.export import graph_to_tetrad, tetrad_to_graph
+    cls, g, labels = case["cls"], case["g"], case["labels"]
+    G = getattr(pywhy_graphs, cls)()
+    for v in g["V"]:
+        G.add_node(labels[v])
+    names = {"D": "directed", "B": "bidirected", "U": "undirected", "C": "circle"}
+    for key in "DBUC":
+        for a, b in g[key]:
+            G.add_edge(labels[a], labels[b], names[key])
+    back = {l: i for i, l in enumerate(labels)}
+    inv = lambda x: back.get(x, "?" + repr(x))  # noqa: E731
+    with tempfile.TemporaryDirectory(prefix="c14_") as d:
+        fn = os.path.join(d, "g.txt")
+        try:
+            graph_to_tetrad(G, fn)
+        except Exception as e:  # noqa
+            return {"export_exc": type(e).__name__}
+        try:
+            H = _quiet(tetrad_to_graph, fn, cls.lower())
+        except Exception as e:  # noqa
+            return {"import_exc": type(e).__name__}
+    out = {"V": sorted((inv(v) for v in H.nodes), key=repr), "D": [], "B": [], "U": [], "C": [], "cls": type(H).__name__}
+    for name, lg in H.get_graphs().items():
+        key = {"directed": "D", "bidirected": "B", "undirected": "U", "circle": "C"}[name]
+        for a, b in lg.edges():
+            e = [inv(a), inv(b)]
+            out[key].append(sorted(e, key=repr) if key in "BU" else e)
+        out[key] = sorted(out[key], key=repr)
+    return {"g": out}
+
+
 def run_impl(case):
     k = case["kind"]
+    if k == "tetlab":
+        return _run_tetlab(case)
     if k == "rt":
         cls, g = case["cls"], case["g"]
         G, lab, inv = _build(cls, g, case)
@@ -596,6 +685,18 @@ def _same_graph(a, b):
 
 def compare(case, impl, model):
     k = case["kind"]
+    if k == "tetlab":
+        if model is None:
+            return None
+        if "exc" in impl:
+            return "tetlab:harness"
+        exact = _same_graph(impl.get("g"), model["g"])
+        if model["expressible"]:
+            return None if exact else "tetlab:expressible-label-not-round-tripped"
+        # a label outside the grammar: either it happens to survive, or the exporter refuses it; never silent damage
+        if exact or impl.get("export_exc") in ("ValueError", "RuntimeError"):
+            return None
+        return "tetlab:inexpressible-label-silently-damaged"
     if isinstance(impl, dict) and "exc" in impl and k != "rt":
         return None if model is None else "%s:%s:raises" % (k, case.get("fmt", "tetrad" if k == "tet" else "ts"))
     if k == "rt":
@@ -635,6 +736,8 @@ def compare(case, impl, model):
 
 def nontrivial(case, model):
     k = case["kind"]
+    if k == "tetlab":
+        return model is not None
     if k == "rt":
         g = case["g"]
         return bool(g["D"] or g["B"] or g["U"] or g["C"]) and any(v is not None for v in model.values())
@@ -645,6 +748,8 @@ def nontrivial(case, model):
 
 def key(case):
     k = case["kind"]
+    if k == "tetlab":
+        return (k, case["cls"], gr.canon(case["g"]), tuple(case["labels"]))
     if k == "rt":
         return (k, case["cls"], gr.canon(case["g"]), case.get("ctor") is not None, str(case.get("weights")), case.get("_lab"))
     if k == "mat":
@@ -662,6 +767,10 @@ def shrink(case):
     if case["kind"] == "rt":
         for h in gr.shrink_graph(case["g"]):
             yield dict(case, g=h)
+    elif case["kind"] == "tetlab":
+        for key_ in "DBUC":
+            for i in range(len(case["g"][key_])):
+                yield dict(case, g=dict(case["g"], **{key_: case["g"][key_][:i] + case["g"][key_][i + 1:]}))
     elif case["kind"] == "tet":
         for i in range(len(case["toks"])):
             yield dict(case, toks=case["toks"][:i] + case["toks"][i + 1:])
@@ -688,6 +797,11 @@ def pre_build(ctx):
             T, changed = tr.regenerate(ctx["repo"], fw.COQ)
         _TABLES.update(T)
         _TABLES["_changed"] = changed
+        gm = T.get("tetrad_grammar", {})
+        extra_reserved = sorted(set(gm.get("reserved_chars", [])) - set(TETRAD_RESERVED) - {" "})
+        if extra_reserved or gm.get("bad_specials"):
+            problems.append("T:tetrad.py: the translated tetrad_to_graph does not read back labels containing %r / the labels %r "
+                            "(only ';' and whitespace are reserved by the format)" % (extra_reserved, gm.get("bad_specials")))
     except tr.TranslationError as e:
         problems.append("translator failed closed: %s" % e)
     except Exception as e:  # noqa
